@@ -347,7 +347,7 @@ Definition glue_C09 (k : string) (a o : list value) : option verdict :=
     | _, _ => None end
   else if is k "consts" then
     Some (functional [VZ packet_len; VZ version_min; VZ version_max; VZ mode_reserved0; VZ mode_client; VZ mode_server;
-                      VZ leap_no_warning; VZ leap_unknown; VZ endhost_port; VZ scion_buf_cap; VZ 1024] o true)
+                      VZ leap_no_warning; VZ leap_unknown; VZ endhost_port; VZ scion_buf_cap; VZ nts_max_packet_len] o true)
   else None.
 
 Definition run_case (k : string) (a o : list value) : verdict :=
